@@ -511,8 +511,13 @@ pub fn observe(c: &Case, tag: &str) -> (Vec<S>, S) {
     }
 }
 
+/// The same harness binary built with the other cargo profile: `<target>/debug/<name>` <-> `<target>/release/<name>`
+/// (bin/vcheck builds both when a stream of the property carries `"profile": "release"`).
 fn other_binary() -> Option<std::path::PathBuf> {
-    let p = std::path::Path::new("/verif/build/target").join(if cfg!(debug_assertions) { "release" } else { "debug" }).join("vharness");
+    let exe = std::env::current_exe().ok()?;
+    let name = exe.file_name()?.to_owned();
+    let target = exe.parent()?.parent()?.to_owned();
+    let p = target.join(if cfg!(debug_assertions) { "release" } else { "debug" }).join(name);
     p.exists().then_some(p)
 }
 
